@@ -156,6 +156,22 @@ def execute(case):
     out, exc = "design", None
     so = sys.stdout
     sys.stdout = _devnull if _devnull is not None else io.StringIO()
+    design_level = {}
+    d_ = m._design
+    real_fd = d_.find_design
+
+    def fd_spy(*a, **k):
+        # what the design-level API hands back (Design*.find_design() -> search object), before the manager sizes it again
+        srch = real_fd(*a, **k)
+        try:
+            g_ = srch.ghe
+            design_level.update(H=float(g_.bhe.b.H), coords=[list(map(float, p)) for p in g_.gFunction.bore_locations],
+                                hp_max=float(max(g_.hp_eft)) if len(g_.hp_eft) else None, hp_min=float(min(g_.hp_eft)) if len(g_.hp_eft) else None)
+        except Exception:  # noqa: BLE001
+            pass
+        return srch
+
+    d_.find_design = fd_spy
     try:
         try:
             m.find_design()
@@ -166,13 +182,18 @@ def execute(case):
         except BaseException as e:  # noqa: BLE001
             out, exc = f"exc:{type(e).__name__}", str(e)
     finally:
+        try:
+            del d_.find_design
+        except AttributeError:
+            pass
         sys.stdout = so
         if _devnull is not None:
             _devnull.seek(0)
             _devnull.truncate(0)
         worlds.end()
     obs = {"outcome": out, "exc": exc, "queries": log.queries, "ghe_inits": log.ghe_inits, "gfunc_calls": log.gfunc_calls,
-           "gheights": log.gheights, "load_years": log.load_years, "design_load_years": list(getattr(m._design, "load_years", []) or [])}
+           "gheights": log.gheights, "load_years": log.load_years, "design_load_years": list(getattr(m._design, "load_years", []) or []),
+           "design_level": design_level}
     if out == "design":
         s = m._search
         ghe = s.ghe
@@ -388,6 +409,14 @@ def judge(case, obs):
               f"simulating the returned field at the returned height {H:.4f} gives {mx:.6f}/{mn:.6f}",
               observed=[obs["hp_max"], obs["hp_min"]], expected=[mx, mn],
               clamped=("min" if H == HMIN else "max" if H == HMAX else "no"))
+    dl = obs.get("design_level") or {}
+    if dl.get("hp_max") is not None and world.kind != "trace":
+        # the exchanger the design-level API returns: if it carries temperatures, they are those of its own field at its own height
+        mx_, mn_ = world.answer(dl["coords"], dl["H"])
+        if abs(dl["hp_max"] - mx_) > TOL or abs(dl["hp_min"] - mn_) > TOL:
+            v("C12", "stale_temperatures", f"{method}: the exchanger returned by the design object's find_design() reports max/min EFT {dl['hp_max']:.6f}/{dl['hp_min']:.6f} "
+              f"at {dl['H']:.4f} m; simulating its field at that height gives {mx_:.6f}/{mn_:.6f}", observed=[dl["hp_max"], dl["hp_min"]], expected=[mx_, mn_],
+              clamped="design-level")
     if obs["ghe_nbh"] != nbh:
         v("C12", "nbh_mismatch", f"{method}: ghe.nbh={obs['ghe_nbh']} but {nbh} coordinates")
     if obs.get("selected_coordinates_len") is not None and obs["selected_coordinates_len"] != nbh:
